@@ -357,23 +357,40 @@ pub fn run(thorough: bool) -> Report {
     // two-line programs over a core
     let core: Vec<String> = data_lines
         .iter()
-        .step_by(if thorough { 7 } else { 61 })
+        .step_by(if thorough { 13 } else { 61 })
         .cloned()
         .chain(rem_forms().iter().map(|s| s.to_string()))
         .chain(["PRINT \"a B\";X1", "IF X THEN 20 ELSE 10", "FOR I = .5 TO 007 STEP 1.5"].iter().map(|s| s.to_string()))
         .collect();
-    for a in &core {
-        for b in &core {
-            programs.push(vec![format!("10 {}", a), format!("20 {}", b)]);
-        }
-    }
-    let total = programs.len() as u64;
-    let results: Vec<(usize, Result<bool, (String, String)>)> = programs
+    // (the ordered pairs are generated on the fly: tens of millions of them in the thorough tier,
+    // which as a list of programs was what the memory of this check went to)
+    let ncore = core.len();
+    let pair_stored = std::sync::atomic::AtomicU64::new(0);
+    let pair_failures: Vec<(Vec<String>, (String, String))> = (0..ncore * ncore)
+        .into_par_iter()
+        .filter_map(|k| {
+            let p = vec![format!("10 {}", core[k / ncore]), format!("20 {}", core[k % ncore])];
+            match check_program(&p) {
+                Ok(true) => {
+                    pair_stored.fetch_add(1, std::sync::atomic::Ordering::Relaxed);
+                    None
+                }
+                Ok(false) => None,
+                Err(e) => Some((p, e)),
+            }
+        })
+        .collect();
+    let mut results: Vec<(usize, Result<bool, (String, String)>)> = programs
         .par_iter()
         .enumerate()
         .map(|(i, p)| (i, check_program(p)))
         .collect();
-    let mut stored = 0u64;
+    let total = (programs.len() + ncore * ncore) as u64;
+    for (p, e) in pair_failures {
+        programs.push(p);
+        results.push((programs.len() - 1, Err(e)));
+    }
+    let mut stored = pair_stored.load(std::sync::atomic::Ordering::Relaxed);
     let mut by_sig: BTreeMap<String, (u64, usize, String)> = BTreeMap::new();
     for (i, r) in results {
         match r {
@@ -394,9 +411,8 @@ pub fn run(thorough: bool) -> Report {
         }
     }
     // sessions with history over the same core
-    let pairs: Vec<(usize, usize)> = (0..core.len()).flat_map(|a| (0..core.len()).map(move |b| (a, b))).collect();
-    let sess_res: Vec<(usize, usize, (String, String))> = pairs.par_iter().filter_map(|(a, b)| check_session(&core[*a], &core[*b]).err().map(|e| (*a, *b, e))).collect();
-    let session_pairs = pairs.len() as u64;
+    let sess_res: Vec<(usize, usize, (String, String))> = (0..ncore * ncore).into_par_iter().filter_map(|k| check_session(&core[k / ncore], &core[k % ncore]).err().map(|e| (k / ncore, k % ncore, e))).collect();
+    let session_pairs = (ncore * ncore) as u64;
     {
         let mut seen = std::collections::HashSet::new();
         let mut v = sess_res;
